@@ -156,16 +156,19 @@ claim("C12", "Lean 4 proofs of sound instantiation (n-ary inverse), exact propos
       "tables drawn around an interpretation that satisfies the quantified formulae, quantifier data through add_data, infer() and node-level "
       "downward calls; the interpretation must stay inside every fact, no contradiction; tables compared with the model.",
       NOTE_COMMON + " The reading is closed over the instances PRESENT (complete tables in the oracle).", "DESIGN.md §6 C12")
-claim("C09", "Lean 4 proof of join completeness (the folded pandas outer join contains the natural join) and presence after upward + systematic variable-pattern differential oracle",
+claim("C09", "Lean 4 proof of join completeness (the folded pandas outer join contains the natural join), presence after upward and the exact upward value / downward tightening of every join tuple + systematic variable-pattern differential oracle (incl. downward-first and late-fact cases)",
       "Theorems C09_foj_complete / C09_foldJoin_complete (every assignment whose projection is a row of every operand relation is a row of the folded "
       "_full_outer_join, whose columns are the union), C09_join_complete / C09_join_aligned / C09_homogeneous_complete (the model's grounding "
       "management returns the operator grounding of every such assignment, aligned with the projected operand groundings, and creates its row; union "
       "propagation in the homogeneous branch), C09_upward_present(_homogeneous) / C09_upward_keeps_rows / C09_operands_kept (present after upward, "
-      "nothing ever removed). The value clause (bounds = truth function of the facts, downward at least as tight as the inverse) is the soundness/"
-      "closed-form content of C02/C03 and is judged by the oracle. Tied to /repo: all variable-sharing patterns of two (and sampled / all three) "
+      "nothing ever removed). The value clause: C09_upward_value / _homogeneous / _open (after the upward step the row of every tuple of the natural "
+      "join is EXACTLY the aggregate of what was there -- the world default for an absent row -- with the truth function of the operand readings; "
+      "on an OPEN operator without a row, the truth function itself), C09_downward_value / C09_downward_frame (after a downward step, also "
+      "index-restricted, each projected operand row is at least as tight as the aggregate of its reading with the inverse's proposal; a row no "
+      "operator grounding projects onto keeps its reading); side conditions are only the engine's own contradiction filter. Tied to /repo: all variable-sharing patterns of two (and sampled / all three) "
       "operands of arity 1-2 incl. permuted arguments, random fact tables; the natural join is computed independently; presence, exact upward "
       "value, downward tightening and untouched independent rows are checked; tables compared with the model.",
-      NOTE_COMMON, "DESIGN.md §6 C09")
+      NOTE_COMMON, "DESIGN.md §6 C09, §11.7")
 claim("C10", "Lean 4 proofs that the model is a function of the SET of facts/rows (finite-map denotation, permutation invariance of every table operation, the join, every engine step, every call list and the infer loop) + multi-hash-seed differential runs",
       "Theorems C10_perm_TEq / C10_addg_perm / C10_addg_set / C10_addData_comm / C10_load_perm (tables denote finite maps; creation order and the order "
       "of facts in a data dict are irrelevant), C10_mergeB_comm_assoc / C10_mergeAll_perm / C10_writeMerged_perm (the duplicate merge is order-free), "
